@@ -12,6 +12,10 @@
 //!                                        `s <cfg>` live reconfiguration through the watch channel |
 //!                                        `w <ms> <buf>` `timeout(ms, reader.read(&mut [0; buf]))`
 //!   cfg = `none` | `<bps>,<burst>` | `<bps>,-`
+//!   `S <n|t|l|i> <op>;…`               the real relay `Server` and real clients, real time: ops `s <n|t|l|i>`
+//!                                        `set_client_rate_limit` (none / tight / loose / invalid) | `c <k>` connect client k |
+//!                                        `x <k>` disconnect | `p <k>` probe which limit governs client k (floods, reads the
+//!                                        server's rate-limit metric); results `ok|noop|refused|noconn|none|tight|loose`
 //! output: `new:invalid` | `new:ok <per-op result>…` | `bad-input`; per-op results
 //!   `ok` | `err:<deadline ms>` | `blocked` | `read:<n>:<ms waited>:<limited count>:<fnv32 of the bytes>` |
 //!   `eof:<ms waited>:<limited>` | `err:<kind>:<ms waited>:<limited>` | `pending:<limited count>` | `panic` (ends the case)
@@ -21,7 +25,10 @@ use std::sync::Arc;
 use std::task::{Context, Poll};
 use std::time::Duration;
 
-use iroh_relay::server::ClientRateLimit;
+use futures_util::{SinkExt, StreamExt};
+use iroh_relay::client::{Client, ClientBuilder};
+use iroh_relay::protos::relay::{ClientToRelayMsg, Datagrams, RelayToClientMsg};
+use iroh_relay::server::{ClientRateLimit, RelayConfig, Server, ServerConfig};
 use iroh_relay::server::streams::{Bucket, verif_hooks::RateLimitedReader};
 use tokio::io::{AsyncRead, AsyncReadExt, ReadBuf};
 use tokio::time::Instant;
@@ -59,7 +66,24 @@ enum ROp {
     Wait(u64, usize),
 }
 
+#[derive(Clone, Copy, Debug, PartialEq)]
+enum SCfg {
+    None,
+    Tight,
+    Loose,
+    Invalid,
+}
+
+#[derive(Clone, Debug)]
+enum SOp {
+    Set(SCfg),
+    Connect(usize),
+    Disconnect(usize),
+    Probe(usize),
+}
+
 enum Case {
+    S { cfg: SCfg, ops: Vec<SOp> },
     B { max: i64, bps: i64, pms: u128, ops: Vec<BOp> },
     R { cfg: Option<Cfg>, ops: Vec<ROp> },
 }
@@ -149,8 +173,33 @@ fn parse(payload: &str) -> Option<Case> {
             }
             Some(Case::R { cfg, ops })
         }
+        ["S", c, rest @ ..] => {
+            let cfg = scfg_of(c)?;
+            let mut ops = Vec::new();
+            for op in split_ops(rest)? {
+                let t: Vec<&str> = op.iter().map(|s| s.as_str()).collect();
+                ops.push(match t.as_slice() {
+                    ["s", c] => SOp::Set(scfg_of(c)?),
+                    ["c", k] => SOp::Connect(nat_le(k, 3)? as usize),
+                    ["x", k] => SOp::Disconnect(nat_le(k, 3)? as usize),
+                    ["p", k] => SOp::Probe(nat_le(k, 3)? as usize),
+                    _ => return None,
+                });
+            }
+            Some(Case::S { cfg, ops })
+        }
         _ => None,
     }
+}
+
+fn scfg_of(s: &str) -> Option<SCfg> {
+    Some(match s {
+        "n" => SCfg::None,
+        "t" => SCfg::Tight,
+        "l" => SCfg::Loose,
+        "i" => SCfg::Invalid,
+        _ => return None,
+    })
 }
 
 fn rt() -> tokio::runtime::Runtime {
@@ -704,6 +753,248 @@ fn run_r(cfg0: Option<Cfg>, ops: &[ROp]) -> Exec {
     })
 }
 
+// ---------------------------------------------------------------------------------------------
+// `S` cases: the real relay `Server`, its `set_client_rate_limit`, real clients.
+
+/// tight: burst 1000 B, 1 MB/s — 20 KB at once is throttled.  loose: burst 60 000 B, 3 MB/s —
+/// 20 KB at once is not throttled, 150 KB at once is.  invalid: 5 B/s (< 1 token per 100 ms).
+fn scfg_limit(c: SCfg) -> Option<ClientRateLimit> {
+    let (bps, burst) = match c {
+        SCfg::None => return None,
+        SCfg::Tight => (1_000_000u32, Some(1000u32)),
+        SCfg::Loose => (3_000_000, Some(60_000)),
+        SCfg::Invalid => (5, None),
+    };
+    let mut l = ClientRateLimit::new(bps.try_into().expect("nonzero"));
+    l.max_burst_bytes = burst.map(|b| b.try_into().expect("nonzero"));
+    Some(l)
+}
+
+const WAIT: Duration = Duration::from_secs(8);
+
+/// Sends `n` datagrams of 1000 bytes to an endpoint that is not connected, then a ping, and
+/// waits for the matching pong: when it arrives the server has read everything before it.
+async fn flood(client: &mut Client, n: usize, tag: u64) -> Result<(), String> {
+    let dst = iroh_base::SecretKey::from_bytes(&[0x77; 32]).public();
+    let payload = vec![0x5a_u8; 1000];
+    for _ in 0..n {
+        client
+            .feed(ClientToRelayMsg::Datagrams { dst_endpoint_id: dst, datagrams: Datagrams::from(&payload) })
+            .await
+            .map_err(|e| format!("send: {e}"))?;
+    }
+    let data = tag.to_be_bytes();
+    client.send(ClientToRelayMsg::Ping(data)).await.map_err(|e| format!("send ping: {e}"))?;
+    tokio::time::timeout(WAIT, async {
+        loop {
+            match client.next().await {
+                Some(Ok(RelayToClientMsg::Pong(d))) if d == data => return Ok(()),
+                Some(Ok(_)) => {}
+                Some(Err(e)) => return Err(format!("recv: {e}")),
+                None => return Err("stream closed".to_string()),
+            }
+        }
+    })
+    .await
+    .map_err(|_| "no pong within the bounded wait".to_string())?
+}
+
+/// Which limit governs this connection, observed on the server's rate-limit metric only.
+async fn classify(server: &Server, client: &mut Client, tag: &mut u64) -> Result<SCfg, String> {
+    let limited = || server.metrics().server.bytes_rx_ratelimited_total.get();
+    // let a loose bucket refill completely (60 000 B at 3 MB/s = 20 ms)
+    tokio::time::sleep(Duration::from_millis(60)).await;
+    let m0 = limited();
+    *tag += 1;
+    flood(client, 20, *tag).await?;
+    if limited() > m0 {
+        return Ok(SCfg::Tight);
+    }
+    *tag += 1;
+    flood(client, 150, *tag).await?;
+    if limited() > m0 {
+        return Ok(SCfg::Loose);
+    }
+    Ok(SCfg::None)
+}
+
+fn run_s(cfg0: SCfg, ops: &[SOp]) -> Exec {
+    let rt = tokio::runtime::Builder::new_current_thread().enable_all().build().expect("runtime");
+    rt.block_on(async move {
+        let mut ex = Exec::default();
+        let infra = |why: String| Exec { infra: Some(why), ..Default::default() };
+        let mut relay = RelayConfig::new((std::net::Ipv4Addr::LOCALHOST, 0));
+        relay.limits.client_rx = scfg_limit(cfg0);
+        let mut config = ServerConfig::default();
+        config.relay = Some(relay);
+        let server = match tokio::time::timeout(WAIT, Server::spawn(config)).await {
+            Ok(Ok(s)) => s,
+            Ok(Err(e)) => return infra(format!("spawn: {e}")),
+            Err(_) => return infra("spawn timed out".into()),
+        };
+        let Some(addr) = server.http_addr() else { return infra("no http addr".into()) };
+        let Some(service) = server.relay_service().cloned() else { return infra("no relay service".into()) };
+        let url: url::Url = format!("http://{addr}").parse().expect("url");
+        let mut clients: [Option<Client>; 4] = [None, None, None, None];
+        // the statement's view: the limit most recently set; what each connection was told
+        let mut latest = cfg0;
+        // per client: (limit it must work with, was that limit set after it connected?)
+        let mut expect: [Option<(SCfg, bool)>; 4] = [None; 4];
+        let mut out: Vec<String> = Vec::new();
+        let mut tag = 0u64;
+        let mut idle_set_then_connect = false;
+        let mut live_update = false;
+        for (i, op) in ops.iter().enumerate() {
+            match op {
+                SOp::Set(c) => {
+                    service.set_client_rate_limit(scfg_limit(*c));
+                    latest = *c;
+                    if clients.iter().all(|c| c.is_none()) {
+                        idle_set_then_connect = true;
+                    }
+                    // an invalid live update is ignored by connected limiters
+                    if *c != SCfg::Invalid {
+                        for e in expect.iter_mut().flatten() {
+                            *e = (*c, true);
+                            live_update = true;
+                        }
+                    }
+                    out.push("ok".into());
+                }
+                SOp::Connect(k) => {
+                    if clients[*k].is_some() {
+                        out.push("noop".into());
+                        continue;
+                    }
+                    let key = iroh_base::SecretKey::from_bytes(&[0x30 + *k as u8; 32]);
+                    let builder = ClientBuilder::new(url.clone(), key, iroh_dns::dns::DnsResolver::new())
+                        .tls_client_config(iroh_relay::tls::make_dangerous_client_config());
+                    match tokio::time::timeout(WAIT, builder.connect()).await {
+                        Err(_) => return infra(format!("op {i}: connect timed out")),
+                        Ok(Ok(c)) => {
+                            clients[*k] = Some(c);
+                            expect[*k] = Some((latest, false));
+                            if latest == SCfg::Invalid {
+                                ex.violation("invalid-config-accepted", format!("op {i}: connection accepted under an invalid limit"));
+                            }
+                            out.push("ok".into());
+                        }
+                        Ok(Err(e)) => {
+                            if latest != SCfg::Invalid {
+                                return infra(format!("op {i}: connect failed: {e}"));
+                            }
+                            out.push("refused".into());
+                        }
+                    }
+                }
+                SOp::Disconnect(k) => match clients[*k].take() {
+                    None => out.push("noop".into()),
+                    Some(mut c) => {
+                        let _ = tokio::time::timeout(WAIT, c.close()).await;
+                        drop(c);
+                        expect[*k] = None;
+                        // let the server notice, so that "no client connected" is true
+                        let t0 = std::time::Instant::now();
+                        while server.metrics().server.disconnects.get() < server.metrics().server.accepts.get()
+                            - clients.iter().filter(|c| c.is_some()).count() as u64
+                            && t0.elapsed() < Duration::from_secs(2)
+                        {
+                            tokio::time::sleep(Duration::from_millis(5)).await;
+                        }
+                        out.push("ok".into());
+                    }
+                },
+                SOp::Probe(k) => {
+                    let Some(client) = clients[*k].as_mut() else {
+                        out.push("noconn".into());
+                        continue;
+                    };
+                    let (want, live) = expect[*k].expect("connected");
+                    let mut got = match classify(&server, client, &mut tag).await {
+                        Ok(g) => g,
+                        Err(e) => return infra(format!("op {i}: probe: {e}")),
+                    };
+                    if got != want {
+                        // timing-dependent classification: look once more before judging
+                        tokio::time::sleep(Duration::from_millis(150)).await;
+                        got = match classify(&server, client, &mut tag).await {
+                            Ok(g) => g,
+                            Err(e) => return infra(format!("op {i}: probe: {e}")),
+                        };
+                    }
+                    if got != want {
+                        ex.violation(
+                            if live { "live-limit-update-not-applied" } else { "limit-not-applied-to-new-connection" },
+                            format!("op {i}: client {k} is governed by {got:?}, the limit in force is {want:?}"),
+                        );
+                    }
+                    out.push(match got {
+                        SCfg::None => "none".into(),
+                        SCfg::Tight => "tight".into(),
+                        SCfg::Loose => "loose".into(),
+                        SCfg::Invalid => "other".into(),
+                    });
+                }
+            }
+        }
+        for c in clients.iter_mut() {
+            if let Some(mut c) = c.take() {
+                let _ = tokio::time::timeout(Duration::from_secs(1), c.close()).await;
+            }
+        }
+        let _ = tokio::time::timeout(Duration::from_secs(3), server.shutdown()).await;
+        ex.out = out.join(" ");
+        ex.nontrivial = out.iter().any(|o| o == "tight" || o == "loose");
+        ex.tags.push("S-server".into());
+        if idle_set_then_connect {
+            ex.tags.push("S-set-while-idle".into());
+        }
+        if live_update {
+            ex.tags.push("S-live-update".into());
+        }
+        ex
+    })
+}
+
+fn gen_s(rng: &mut Rng) -> String {
+    let pick = |rng: &mut Rng| *rng.pick(&["n", "t", "t", "l", "l"]);
+    let cfg0 = if rng.chance(1, 12) { "i" } else { pick(rng) };
+    let mut ops: Vec<String> = Vec::new();
+    let mut conn = [false; 4];
+    // most cases contain the pattern "set while nobody is connected, then connect and probe"
+    if rng.chance(3, 4) {
+        if rng.bool() {
+            ops.push("c 0".into());
+            ops.push("x 0".into());
+        }
+        ops.push(format!("s {}", pick(rng)));
+        ops.push("c 1".into());
+        conn[1] = true;
+        ops.push("p 1".into());
+    }
+    for _ in 0..rng.range(1, 4) {
+        let k = rng.usize_below(3);
+        match rng.below(8) {
+            0..=1 => ops.push(format!("s {}", if rng.chance(1, 10) { "i" } else { pick(rng) })),
+            2..=3 => {
+                if conn[k] {
+                    ops.push(format!("p {k}"));
+                } else {
+                    ops.push(format!("c {k}"));
+                    conn[k] = true;
+                    ops.push(format!("p {k}"));
+                }
+            }
+            4 => {
+                ops.push(format!("x {k}"));
+                conn[k] = false;
+            }
+            _ => ops.push(format!("p {k}")),
+        }
+    }
+    format!("S {cfg0} {}", ops.join(";"))
+}
+
 fn pick_i64(rng: &mut Rng) -> i64 {
     match rng.below(14) {
         0 => i64::MAX,
@@ -857,10 +1148,28 @@ impl Prop for C09 {
         ] {
             out.push(s.to_string());
         }
+        // the service cell: a limit set while nobody is connected governs the next connection
+        for s in [
+            "S n s t;c 0;p 0",
+            "S t s n;c 0;p 0",
+            "S n c 0;x 0;s l;c 1;p 1;s t;p 1",
+            "S l c 0;p 0;s t;p 0;x 0;s n;c 0;p 0",
+            "S t s i;c 0;s l;c 0;p 0;s i;p 0",
+        ] {
+            out.push(s.to_string());
+        }
         for s in ["", "B", "B 1 1 1", "B 1 1 x a 1", "B 9223372036854775808 1 1 a 1", "R 0,- d 1", "R 1,0 d 1", "R 1 d 1", "R none w 1", "R none w 1 1048577", "R none d 1048577", "R none x 4", "R none e 1", "Q 1", "B 1 1 1 a 1;;a 1"] {
             out.push(s.to_string());
         }
         let len_cap = if tier == Tier::Thorough { 60 } else { 30 };
+        // real-server cases run in real time (≈ 0.3 s each): a fixed small share
+        let n_server = if tier == Tier::Thorough { 150 } else { 16 };
+        for _ in 0..n_server {
+            if out.len() < n {
+                let c = gen_s(rng);
+                out.push(c);
+            }
+        }
         while out.len() < n {
             let c = if rng.bool() { gen_b(rng, len_cap) } else { gen_r(rng, len_cap) };
             out.push(c);
@@ -872,6 +1181,7 @@ impl Prop for C09 {
             None => Exec::new("bad-input").tag("bad-input"),
             Some(Case::B { max, bps, pms, ops }) => run_b(max, bps, pms, &ops),
             Some(Case::R { cfg, ops }) => run_r(cfg, &ops),
+            Some(Case::S { cfg, ops }) => run_s(cfg, &ops),
         }
     }
 }
